@@ -18,8 +18,8 @@
    * [build]: the tag tree (TparseModel.tag) the parser builds for the printed text of such an AST:
      offsets from the printer, IDLength / Level of a variable from the innermost enclosing loop whose
      value name is a prefix of its printed path ([annot], what checkLoopVariable computes). *)
-From Coq Require Import NArith List Bool Arith.
-From Qv Require Import gen.Tables gen.Tables_tmpl gen.Tables_tparse FinderModel EscapeModel TmplModel TmplRender TmplProofs TparseModel TrenderModel TrenderProofs TrenderInst.
+From Coq Require Import NArith ZArith List Bool Arith.
+From Qv Require Import gen.Tables gen.Tables_tmpl gen.Tables_expr gen.Tables_digit gen.Tables_tparse FinderModel EscapeModel TmplModel TmplRender TmplProofs TparseModel TrenderModel TrenderProofs TrenderInst.
 Import ListNotations.
 
 Definition tagc (c : N) : bool := N.eqb c 123 || N.eqb c 60 || N.eqb c 125.
@@ -59,11 +59,40 @@ Definition uniq (names : list (list N)) (p : path) : bool :=
 
 Definition head_len (set : option path) (val group : list N) (sort : N) : nat := length (loop_head set val group sort).
 
+(* expressions (integer fragment): naturals below 10^19 (at most 19 digits), variables whose names hold no parenthesis,
+   parenthesised binary expressions with the operators 0..10 of TmplModel *)
+Definition wf_epath (p : path) : bool :=
+  wf_path p && forallb (fun c => negb (N.eqb c 40) && negb (N.eqb c 41)) (print_path p).
+Fixpoint wf_expr (names : list (list N)) (e : expr) : bool :=
+  match e with
+  | ENum n => N.ltb n 10000000000000000000
+  | EVar p => wf_epath p && uniq names p
+  | EBin op a b => N.leb op 10 && wf_expr names a && wf_expr names b
+  end.
+
+(* what the values of an inline if may hold: text without a double quote, {var:}, {raw:}, {math:} *)
+Definition inl_ok (x : tnode) : bool :=
+  match x with
+  | TText s => forallb (fun c => negb (N.eqb c 34)) s
+  | TVar _ | TRaw _ | TMath _ => true
+  | _ => false
+  end.
+Definition ntags (l : list tnode) : nat := length (filter (fun x => negb (is_text x)) l).
+
 Fixpoint wf_node1 (names : list (list N)) (depth : nat) (n : tnode) {struct n} : bool :=
   match n with
   | TText s => wf_text s
   | TVar p => wf_path p && uniq names p
   | TRaw p => wf_path p && uniq names p
+  | TMath e => wf_expr names e
+  | TIf c body more =>
+    wf_expr names c && forallb (wf_node1 names (S depth)) body &&
+    (fix wm (l : list (option expr * list tnode)) : bool :=
+       match l with
+       | [] => true
+       | (Some e, b) :: r => wf_expr names e && forallb (wf_node1 names (S depth)) b && wm r
+       | (None, b) :: r => forallb (wf_node1 names (S depth)) b && match r with [] => true | _ => false end
+       end) more
   | TLoop set val group sort body =>
     (depth <? 255) &&
     match set with Some p => wf_path p && uniq names p | None => true end &&
@@ -86,6 +115,27 @@ Fixpoint annot (env : list (list N * loopinfo)) (text : list N) : N * N :=
   end.
 Definition vt_of (env : list (list N * loopinfo)) (off : nat) (p : path) : vtag :=
   mkV off (N.of_nat (length (print_path p))) (fst (annot env (print_path p))) (snd (annot env (print_path p))).
+
+(* the QExpression array parseExpressions builds for a printed expression that starts at [off] *)
+Definition opq (op : N) : N :=
+  match op with
+  | 0 => op_Addition | 1 => op_Subtraction | 2 => op_Multiplication | 3 => op_Equal | 4 => op_NotEqual
+  | 5 => op_Less | 6 => op_Greater | 7 => op_LessOrEqual | 8 => op_GreaterOrEqual | 9 => op_And | _ => op_Or
+  end%N.
+Fixpoint q_operand (env : list (list N * loopinfo)) (oper : N) (off : nat) (e : expr) {struct e} : qexpr :=
+  match e with
+  | ENum n => QNum oper qn_natural n
+  | EVar p => QVar oper (vt_of env (off + 5) p)
+  | EBin op a b =>
+    QSub oper [q_operand env (opq op) (off + 1) a;
+               q_operand env op_NoOp (off + 1 + length (print_operand a) + 1 + length (op_text op) + 1) b]
+  end.
+Definition qexpr_of (env : list (list N * loopinfo)) (off : nat) (e : expr) : list qexpr :=
+  match e with
+  | EBin op a b =>
+    [q_operand env (opq op) off a; q_operand env op_NoOp (off + length (print_operand a) + 1 + length (op_text op) + 1) b]
+  | _ => [q_operand env op_NoOp off e]
+  end.
 
 (* the fields of the LoopTag of a loop printed at [off] *)
 Definition loop_rec (env : list (list N * loopinfo)) (depth off : nat)
@@ -112,6 +162,23 @@ Fixpoint build (env : list (list N * loopinfo)) (depth off : nat) (n : tnode) {s
   match n with
   | TVar p => [PVar (vt_of env (off + 5) p)]
   | TRaw p => [PRaw (vt_of env (off + 5) p)]
+  | TMath e => [PMath off (off + length (print_node n)) (qexpr_of env (off + 6) e)]
+  | TIf c body more =>
+    let co := off + 10 + length (print_expr c) + 2 in
+    let ce := co + length (print_nodes body) in
+    [PIf off (off + length (print_node n))
+         (PCase co ce (qexpr_of env (off + 10) c) (bl env (S depth) co body) ::
+          (fix bm (o : nat) (l : list (option expr * list tnode)) {struct l} : list ifcase :=
+             match l with
+             | [] => []
+             | (Some e, b) :: r =>
+               let bo := o + 15 + length (print_expr e) + 2 in
+               PCase bo (bo + length (print_nodes b)) (qexpr_of env (o + 15) e) (bl env (S depth) bo b) ::
+               bm (bo + length (print_nodes b)) r
+             | (None, b) :: r =>
+               let bo := o + 6 in
+               PCase bo (bo + length (print_nodes b)) [] (bl env (S depth) bo b) :: bm (bo + length (print_nodes b)) r
+             end) ce more)]
   | TLoop set val group sort body =>
     let l := loop_rec env depth off set val group sort (length (print_nodes body)) in
     [PLoop l (bl ((val, info_of l) :: env) (S depth) (off + N.to_nat (l_coff l)) body)]
@@ -122,19 +189,84 @@ Fixpoint build_list (env : list (list N * loopinfo)) (depth off : nat) (l : list
   | [] => []
   | x :: r => build env depth off x ++ build_list env depth (off + length (print_node x)) r
   end.
+(* top-level names for the local fixpoints of [wf_node1] / [build] over the else-cases *)
+Definition wf_more (names : list (list N)) (depth : nat) : list (option expr * list tnode) -> bool :=
+  fix wm (l : list (option expr * list tnode)) : bool :=
+    match l with
+    | [] => true
+    | (Some e, b) :: r => wf_expr names e && forallb (wf_node1 names (S depth)) b && wm r
+    | (None, b) :: r => forallb (wf_node1 names (S depth)) b && match r with [] => true | _ => false end
+    end.
+Definition build_more (env : list (list N * loopinfo)) (depth : nat) : nat -> list (option expr * list tnode) -> list ifcase :=
+  fix bm (o : nat) (l : list (option expr * list tnode)) {struct l} : list ifcase :=
+    match l with
+    | [] => []
+    | (Some e, b) :: r =>
+      let bo := o + 15 + length (print_expr e) + 2 in
+      PCase bo (bo + length (print_nodes b)) (qexpr_of env (o + 15) e) (build_list env (S depth) bo b) ::
+      bm (bo + length (print_nodes b)) r
+    | (None, b) :: r =>
+      let bo := o + 6 in
+      PCase bo (bo + length (print_nodes b)) [] (build_list env (S depth) bo b) :: bm (bo + length (print_nodes b)) r
+    end.
 Definition tree_of_full (ast : list tnode) : list tag := build_list [] 0 0 ast.
 
 (* ---- the instance of render_all the statement is about ---- *)
-(* expression evaluation of the instance: none yet (the fragment has no expressions) *)
-Definition no_math (k : nat) (ex : list qexpr) (items : list (item jv)) : option (list N) := None.
-Definition no_cond (k : nat) (ex : list qexpr) (items : list (item jv)) : option bool := None.
+(* expression evaluation of the instance: TmplModel.eval_expr transcribed to the QExpression arrays the parser builds for
+   the integer fragment ([qexpr_of]); variables are read with getValue of the renderer model *)
+Definition q_op (q : qexpr) : N := match q with QNum o _ _ | QText o _ _ | QVar o _ | QSub o _ => o end.
+Definition q_arith (op : N) (x y : Z) : option Z :=
+  if N.eqb op op_Addition then Some (x + y)%Z else if N.eqb op op_Subtraction then Some (x - y)%Z
+  else if N.eqb op op_Multiplication then Some (x * y)%Z
+  else if N.eqb op op_Less then Some (zb (x <? y)%Z) else if N.eqb op op_Greater then Some (zb (x >? y)%Z)
+  else if N.eqb op op_LessOrEqual then Some (zb (x <=? y)%Z) else if N.eqb op op_GreaterOrEqual then Some (zb (x >=? y)%Z)
+  else if N.eqb op op_And then Some (zb ((x >? 0)%Z && (y >? 0)%Z))
+  else if N.eqb op op_Or then Some (zb ((x >? 0)%Z || (y >? 0)%Z)) else None.
+Section QEval.
+  Variable content : list N.
+  Variable root : jv.
+  Variable items : list (item jv).
+  Definition q_var (v : vtag) : option jv :=
+    match get_value jv get_key content root v items with ROk o => o | RError _ => None end.
+  Fixpoint q_val (q : qexpr) {struct q} : option Z :=
+    match q with
+    | QNum _ k b => if N.eqb k qn_natural then Some (Z.of_N b) else None
+    | QVar _ v => match q_var v with Some x => num_of x | None => None end
+    | QSub _ (a :: b :: nil) =>
+      let op := q_op a in
+      if N.eqb op op_Equal || N.eqb op op_NotEqual then
+        let side (x : qexpr) (vx : option Z) :=
+          match x with QVar _ v => match q_var v with Some y => SVal y | None => SNone end | _ => num_side vx end in
+        match eq_sides (side a (q_val a)) (side b (q_val b)) with
+        | Some t => Some (if N.eqb op op_Equal then zb t else zb (negb t))
+        | None => None
+        end
+      else match q_val a, q_val b with Some x, Some y => q_arith op x y | _, _ => None end
+    | _ => None
+    end.
+  Definition q_top (l : list qexpr) : option Z :=
+    match l with
+    | [QVar _ v] =>
+      match q_var v with
+      | Some x => match num_of x with Some z => Some z | None => Some (zb (match x with JStr (_ :: _) => true | _ => false end)) end
+      | None => Some 0%Z
+      end
+    | [q] => q_val q
+    | [a; b] => q_val (QSub op_NoOp [a; b])
+    | _ => None
+    end.
+End QEval.
+Definition jv_math (content : list N) (root : jv) (k : nat) (ex : list qexpr) (items : list (item jv)) : option (list N) :=
+  match q_top content root items ex with Some z => Some (dec_z z) | None => None end.
+Definition jv_cond (content : list N) (root : jv) (k : nat) (ex : list qexpr) (items : list (item jv)) : option bool :=
+  match q_top content root items ex with Some z => Some (z >? 0)%Z | None => None end.
 
 Definition render_tree_jv (auto : bool) (w : N) (content : list N) (root : jv) (tags : list tag) : rres (list N) :=
   render_model jv get_key jv_members (jv_text auto w) char_and_length (fun v k => group_by k v) sort_set
-               (var_text_cfg auto w) no_math no_cond content root tags.
+               (var_text_cfg auto w) (jv_math content root) (jv_cond content root) content root tags.
 Definition render_all_jv (auto : bool) (w : N) (content : list N) (root : jv) : rres (list N) :=
   render_all jv get_key jv_members (jv_text auto w) char_and_length (fun v k => group_by k v) sort_set
-             (var_text_cfg auto w) no_math no_cond w content root.
+             (var_text_cfg auto w) (jv_math content root) (jv_cond content root) w content root.
 
 (* the full statement (all constructors): not proved yet *)
 Definition c02_full_statement (wf : list tnode -> bool) : Prop :=
